@@ -9,6 +9,7 @@ from .world import trusted
 
 StrSeq = SeqSort(StringSort())
 joinsep = Function('joinsep', StringSort(), StrSeq, StringSort())        # sep.join(parts)
+joinnl_of = Function('joinnl', StrSeq, StringSort())                      # concat of (line + '\n') for line in lines
 bytes_of_int = Function('bytes_of_int', IntSort(), IntSort(), IntSort(), Bytes)   # int.to_bytes(v, size, little?)
 int_of_bytes = Function('int_of_bytes', Bytes, IntSort(), IntSort())              # int.from_bytes(b, little?)
 
@@ -26,7 +27,11 @@ def method(eng, p, o, name, args, kws):
         j = Int('sp_j')
         from z3 import ForAll
         p.pc.append(Length(parts) >= 1)
-        p.pc.append(joinsep(StringVal(sep), parts) == s)
+        if sep == '\n':
+            # s == parts[0] + '\n' + ... + parts[-1], stated with the spec fold joinnl over all parts but the last
+            p.pc.append(s == Concat(joinnl_of(SubSeq(parts, 0, Length(parts) - 1)), parts[Length(parts) - 1]))
+        else:
+            p.pc.append(joinsep(StringVal(sep), parts) == s)
         p.pc.append(ForAll([j], Implies(And(j >= 0, j < Length(parts)), Not(Contains(parts[j], StringVal(sep))))))
         p.ghost.setdefault('splits', []).append((s, sep, parts))
         return [(p, eng.new_obj(p, 'slist', ('slist', parts, 'str')))]
@@ -58,12 +63,34 @@ def str_of(eng, p, x):
     return [(p, SStr(Function('str_of', Val, StringSort())(eng.to_val(p, x))))]
 
 
+int_of_str = Function('int_of_str', StringSort(), IntSort())
+float_of_str = Function('float_of_str', StringSort(), z3.RealSort())
+str_is_int = Function('str_is_int_literal', StringSort(), z3.BoolSort())
+str_is_float = Function('str_is_float_literal', StringSort(), z3.BoolSort())
+
+
 def int_of(eng, p, x):
-    raise Unsupported('int(str)')
+    trusted('int(str): the exact value of a decimal integer literal, ValueError otherwise')
+    s = eng.to_str(p, x)
+    q = p.fork(); q.pc.append(Not(str_is_int(s))); p.pc.append(str_is_int(s))
+    out = []
+    if eng.feasible(q.pc):
+        q.exc = ExcV('ValueError', (), origin='int()'); out.append((q, None))
+    if eng.feasible(p.pc):
+        out.append((p, SInt(int_of_str(s))))
+    return out
 
 
 def float_of(eng, p, x):
-    raise Unsupported('float(str)')
+    trusted('float(str): the correctly rounded value of a decimal literal (treated as its exact real value, A2f), ValueError otherwise')
+    s = eng.to_str(p, x)
+    q = p.fork(); q.pc.append(Not(str_is_float(s))); p.pc.append(str_is_float(s))
+    out = []
+    if eng.feasible(q.pc):
+        q.exc = ExcV('ValueError', (), origin='float()'); out.append((q, None))
+    if eng.feasible(p.pc):
+        out.append((p, SReal(float_of_str(s))))
+    return out
 
 
 def int_bytes(eng, p, short, args, kws):
@@ -88,7 +115,14 @@ def int_bytes(eng, p, short, args, kws):
     raise Unsupported(short)
 
 
-pow256 = Function('pow256', IntSort(), IntSort())
+_pow256 = Function('pow256', IntSort(), IntSort())
+
+
+def pow256(n):
+    n = simplify(n) if z3.is_expr(n) else z3.IntVal(n)
+    if z3.is_int_value(n):
+        return z3.IntVal(256 ** n.as_long())
+    return _pow256(n)
 
 
 def order_flag(eng, p, order):
